@@ -57,7 +57,8 @@ KINDS = ["match_result", "match_null", "match_error", "match_scalar", "same_id_r
          # notifications whose *params* mention the pending request's id: ids are per direction, so a peer's
          # notifications/cancelled naming that id speaks of one of the peer's own requests, and a progress token that
          # equals the id is a token - neither is the response
-         "note_cancelled_names_id", "note_token_is_id"]
+         "note_cancelled_names_id", "note_token_is_id",
+         "match_error_code_-32001", "match_error_code_-32000", "match_error_code_-32603", "match_error_code_-32002", "match_error_code_7"]
 
 
 # ids of distractor responses are drawn from the ids that other calls of the same process use as their own
@@ -82,6 +83,10 @@ def _wire(kind: str, rid: Any, n: int) -> Any:
         return {"jsonrpc": "2.0", "id": rid, "result": [1, "two", None]}
     if kind == "match_error":
         return {"jsonrpc": "2.0", "id": rid, "error": {"code": -32601, "message": f"nope-{n}"}}
+    if kind.startswith("match_error_code_"):
+        # the matching response is an error of another class: the peer's own "timeout" / "connection closed" / internal /
+        # application-defined codes - an answer all the same, reported as the error it is (with its code)
+        return {"jsonrpc": "2.0", "id": rid, "error": {"code": int(kind[len("match_error_code_"):]), "message": f"Request timed out? no: answered-{n}"}}
     if kind == "same_id_request":
         return {"jsonrpc": "2.0", "id": rid, "method": "sampling/createMessage"}
     if kind == "same_id_request_params":
